@@ -413,15 +413,15 @@ def indian_GetMonthLen (year : Int) (month : Int) : Option Int := do
     else
       pure 30
 
-/-- cal_types/hijri/hijri.go:247 -/
+/-- cal_types/hijri/hijri.go:244 -/
 def hijri_IsLeap (year : Int) : Option Bool := do
   pure (decide ((← (utils_Mod ((year * 11) + 14) 30)) < 11))
 
--- NOT TRANSLATED: hijri_ToJd (cal_types/hijri/hijri.go:299): call of github.com/ilius/libgostarcal/cal_types/hijri.monthStart (not in the list of translated functions)
+-- NOT TRANSLATED: hijri_ToJd (cal_types/hijri/hijri.go:248): conversion to int
 
--- NOT TRANSLATED: hijri_JdTo (cal_types/hijri/hijri.go:303): conversion to int
+-- NOT TRANSLATED: hijri_JdTo (cal_types/hijri/hijri.go:262): conversion to int
 
-/-- cal_types/hijri/hijri.go:322 -/
+/-- cal_types/hijri/hijri.go:281 -/
 def hijri_GetMonthLen (year : Int) (month : Int) : Option Int := do
   if (decide ((Int.tmod month 2) = 1)) then
     pure 30
